@@ -9,6 +9,11 @@
 //!       tplay <t> <len>       a sound on the t-th sub-track                  → ok n= | limit n= | skip
 //!       add spat <l> <sndcap> a SPATIAL sub-track (listener = the l-th listener created; same storage and capacity
 //!                             as the plain sub-tracks; indexed together with them by tplay / tplayerr / drop sub)
+//!       add sub <sndcap> <subcap> | add spat <l> <sndcap> <subcap>   … with its own sub-track capacity (default 128)
+//!       tadd <p> sub <sndcap> <subcap> | tadd <p> spat <l> <sndcap> <subcap>
+//!                             a plain / spatial sub-track OF the p-th (plain or spatial) sub-track — at any depth;
+//!                             indexed together with all other sub-tracks    → ok n=<children of p> cap=<snd>/<sub> | limit n= | skip
+//!                             (a successful `add sub` / `add spat` prints ` cap=<sound_capacity()>/<sub_track_capacity()>` too)
 //!       playerr | tplayerr <t>  play a SoundData whose into_sound() fails, on the main track / on the t-th
 //!                             (plain or spatial) sub-track                   → err n= | limit n= | skip
 //!       drop <kind> <i>       drop the i-th handle of that kind (a modulator: raise its finished flag)
@@ -46,7 +51,17 @@ pub fn gen(rng: &mut Rng, n: usize, thorough: bool, stats: &mut Stats) -> Vec<St
 		}
 		let kinds = ["sub", "send", "clock", "mod", "lis"];
 		let mut attempts = [0u64; 5];
-		if rng.chance(1, 3) {
+		// the generator's rough picture of the sub-tracks (removal taken as immediate): which attempts probably gave a
+		// live handle, and how full their own sub-track storages are — so that parents are mostly real tracks
+		struct GT {
+			live: bool,
+			top: bool,
+			tc: u64,
+			kids: u64,
+			parent: Option<usize>,
+		}
+		let mut gts: Vec<GT> = vec![];
+		if rng.chance(1, 2) {
 			// a listener early on, so that spatial sub-tracks can be built
 			out.push("add lis".into());
 			attempts[4] += 1;
@@ -59,16 +74,46 @@ pub fn gen(rng: &mut Rng, n: usize, thorough: bool, stats: &mut Stats) -> Vec<St
 			match rng.below(16) {
 				0..=4 => {
 					if kinds[k] == "sub" {
-						if attempts[4] > 0 && rng.chance(1, 3) {
-							out.push(format!("add spat {} {}", rng.below(attempts[4]), rng.pick(&[0u64, 1, 1, 2, 2, 3])));
-							stats.hit("add_spat");
+						// sound capacity and sub-track capacity are drawn apart (mostly DIFFERENT values, 0 and 1 included):
+						// each storage of a track is sized by its own builder field
+						let sc = rng.pick(&[0u64, 1, 1, 2, 2, 3]);
+						let tc = if rng.chance(1, 6) { sc } else { rng.pick(&[0u64, 1, 1, 2, 3, 4]) };
+						let spatial = attempts[4] > 0 && caps[4] > 0 && rng.chance(2, 5);
+						let what = if spatial { format!("spat {}", rng.below(attempts[4].min(caps[4]))) } else { "sub".to_string() };
+						let live: Vec<usize> = (0..gts.len()).filter(|i| gts[*i].live).collect();
+						if !live.is_empty() && rng.chance(1, 2) {
+							// a sub-track of a sub-track (plain or spatial parent, any depth); now and then of a
+							// track that is gone, refused or was never there
+							let parent = if rng.chance(1, 10) { rng.below(gts.len() as u64 + 1) as usize } else { rng.pick(&live) };
+							out.push(format!("tadd {} {} {} {}", parent, what, sc, tc));
+							stats.hit(if spatial { "tadd_spat" } else { "tadd_sub" });
+							// (a parent that is not there: the op is skipped and takes no index)
+							if parent < gts.len() && gts[parent].live {
+								let ok = gts[parent].kids < gts[parent].tc;
+								if ok {
+									gts[parent].kids += 1;
+								}
+								gts.push(GT { live: ok, top: false, tc, kids: 0, parent: Some(parent) });
+							}
 						} else {
-							out.push(format!("add sub {}", rng.pick(&[0u64, 1, 1, 2, 2, 3])));
+							let ok = (gts.iter().filter(|g| g.top && g.live).count() as u64) < caps[0];
+							if rng.chance(1, 8) {
+								// the builder's default sub-track capacity
+								out.push(format!("add {} {}", what, sc));
+								gts.push(GT { live: ok, top: true, tc: 128, kids: 0, parent: None });
+							} else {
+								out.push(format!("add {} {} {}", what, sc, tc));
+								gts.push(GT { live: ok, top: true, tc, kids: 0, parent: None });
+							}
+						}
+						if spatial {
+							stats.hit("add_spat");
 						}
 					} else {
 						out.push(format!("add {}", kinds[k]));
 					}
 					attempts[k] += 1;
+					attempts[0] = gts.len() as u64;
 					stats.hit(&format!("add_{}", kinds[k]));
 				}
 				5..=6 => {
@@ -108,6 +153,16 @@ pub fn gen(rng: &mut Rng, n: usize, thorough: bool, stats: &mut Stats) -> Vec<St
 						let i = if rng.chance(1, 2) { attempts[k] - 1 } else { rng.below(attempts[k]) };
 						out.push(format!("drop {} {}", kinds[k], i));
 						stats.hit("drop");
+						if kinds[k] == "sub" {
+							if let Some(g) = gts.get_mut(i as usize) {
+								if g.live {
+									g.live = false;
+									if let Some(p) = g.parent {
+										gts[p].kids = gts[p].kids.saturating_sub(1);
+									}
+								}
+							}
+						}
 					}
 				}
 				_ => {
@@ -169,14 +224,111 @@ impl TH {
 			TH::Spatial(h) => h.num_sounds(),
 		}
 	}
+	fn num_sub_tracks(&self) -> usize {
+		match self {
+			TH::Plain(h) => h.num_sub_tracks(),
+			TH::Spatial(h) => h.num_sub_tracks(),
+		}
+	}
+	fn sound_capacity(&self) -> usize {
+		match self {
+			TH::Plain(h) => h.sound_capacity(),
+			TH::Spatial(h) => h.sound_capacity(),
+		}
+	}
+	fn sub_track_capacity(&self) -> usize {
+		match self {
+			TH::Plain(h) => h.sub_track_capacity(),
+			TH::Spatial(h) => h.sub_track_capacity(),
+		}
+	}
+	fn add_sub_track(&mut self, b: TrackBuilder) -> Result<TrackHandle, kira::ResourceLimitReached> {
+		match self {
+			TH::Plain(h) => h.add_sub_track(b),
+			TH::Spatial(h) => h.add_sub_track(b),
+		}
+	}
+	fn add_spatial_sub_track(&mut self, l: ListenerId, b: SpatialTrackBuilder) -> Result<SpatialTrackHandle, kira::ResourceLimitReached> {
+		match self {
+			TH::Plain(h) => h.add_spatial_sub_track(l, glam::Vec3::ZERO, b),
+			TH::Spatial(h) => h.add_spatial_sub_track(l, glam::Vec3::ZERO, b),
+		}
+	}
 }
 
 struct SubTrack {
 	handle: Option<TH>,
 	effect_log: Log,
 	sounds: Vec<(Log, u64)>, // (probe log, length)
+	/// `None`: a sub-track of the mixer (its life is `sh[0].res[shadow_idx]`); `Some(p)`: a sub-track of the
+	/// sub-track `subs[p]` (its life is `subs[p].kids.res[shadow_idx]`)
+	parent: Option<usize>,
 	shadow_idx: usize,
 	snd: Shadow,
+	/// this track's own sub-track storage (capacity = the builder's `sub_track_capacity`) and the indices (in
+	/// `St::subs`) of the tracks in it, aligned with `kids.res`
+	kids: Shadow,
+	kid_tracks: Vec<usize>,
+}
+
+/// the builder default of `sound_capacity` / `sub_track_capacity`
+const DEFAULT_TRACK_CAPACITY: usize = 128;
+
+fn sub_where(st: &St, i: usize) -> (Where, bool) {
+	let s = st.subs[i].as_ref().unwrap();
+	match s.parent {
+		None => st.sh[0].res[s.shadow_idx],
+		Some(p) => st.subs[p].as_ref().unwrap().kids.res[s.shadow_idx],
+	}
+}
+fn sub_where_mut(st: &mut St, i: usize) -> &mut (Where, bool) {
+	let (parent, idx) = {
+		let s = st.subs[i].as_ref().unwrap();
+		(s.parent, s.shadow_idx)
+	};
+	match parent {
+		None => &mut st.sh[0].res[idx],
+		Some(p) => &mut st.subs[p].as_mut().unwrap().kids.res[idx],
+	}
+}
+/// C08 / C12: a track leaves its parent's storage at the first callback at whose start it is in the arena, its
+/// handle is dropped, and every track of its own sub-track storage is gone or is itself in that situation (a
+/// sub-track still waiting to be picked up keeps it)
+fn sub_removable(st: &St, i: usize) -> bool {
+	let (w, flag) = sub_where(st, i);
+	w == Where::Arena
+		&& flag
+		&& st.subs[i].as_ref().unwrap().kid_tracks.iter().all(|k| match sub_where(st, *k).0 {
+			Where::Gone => true,
+			Where::Ring => false,
+			Where::Arena => sub_removable(st, *k),
+		})
+}
+fn sub_gone(st: &mut St, i: usize) {
+	sub_where_mut(st, i).0 = Where::Gone;
+	for k in st.subs[i].as_ref().unwrap().kid_tracks.clone() {
+		sub_gone(st, k);
+	}
+}
+/// one callback for the sub-track storage that holds `kids`: `remove_and_add`, then every track in the arena
+/// serves its own sound storage and its own sub-track storage
+fn sub_level(st: &mut St, kids: &[usize]) {
+	let gone: Vec<usize> = kids.iter().copied().filter(|k| sub_removable(st, *k)).collect();
+	for k in gone {
+		sub_gone(st, k);
+	}
+	for k in kids {
+		if sub_where(st, *k).0 == Where::Ring {
+			sub_where_mut(st, *k).0 = Where::Arena;
+		}
+	}
+	for k in kids {
+		if sub_where(st, *k).0 == Where::Arena {
+			st.subs[*k].as_mut().unwrap().snd.callback();
+			let next = st.subs[*k].as_ref().unwrap().kid_tracks.clone();
+			sub_level(st, &next);
+		}
+	}
 }
 
 struct St {
@@ -247,6 +399,46 @@ pub fn run(ops: &[String]) -> Vec<String> {
 			}
 		}
 	})
+}
+
+enum TB {
+	Plain(TrackBuilder),
+	Spatial(ListenerId, SpatialTrackBuilder),
+}
+/// the builder of a plain (`lid` = None) or spatial sub-track with the given sound capacity and (optionally)
+/// sub-track capacity
+fn track_builder(lid: Option<ListenerId>, sc: usize, tc: Option<usize>, elog: &Log) -> TB {
+	let fx = ProbeEffectBuilder {
+		gain: 1.0,
+		offset: 0.0,
+		feedback: 0.0,
+		log: elog.clone(),
+	};
+	match lid {
+		None => {
+			let mut b = TrackBuilder::new().sound_capacity(sc);
+			if let Some(tc) = tc {
+				b = b.sub_track_capacity(tc);
+			}
+			TB::Plain(b.with_effect(fx))
+		}
+		Some(l) => {
+			let mut b = SpatialTrackBuilder::new().sound_capacity(sc);
+			if let Some(tc) = tc {
+				b = b.sub_track_capacity(tc);
+			}
+			TB::Spatial(l, b.with_effect(fx))
+		}
+	}
+}
+
+/// C08: `sound_capacity()` / `sub_track_capacity()` of a new track report what its builder was given
+fn capacity_report(h: &TH, sc: usize, tc: Option<usize>, detail: &str, out: &mut Out) -> String {
+	let (a, b) = (h.sound_capacity(), h.sub_track_capacity());
+	if a != sc || b != tc.unwrap_or(DEFAULT_TRACK_CAPACITY) {
+		out.oracle_fail("capacity_reported", detail);
+	}
+	format!(" cap={}/{}", a, b)
 }
 
 /// runs a creation call; C08: creation never panics (capacity 0 must give the limit error)
@@ -342,55 +534,40 @@ fn op(st: &mut St, line: &str, detail: &str, out: &mut Out) -> String {
 		"add" => {
 			let Some(mgr) = st.mgr.as_mut() else { return "bad-op".into() };
 			match tok[1] {
-				"sub" => {
-					let sc = pu(tok[2]) as usize;
+				"sub" | "spat" => {
+					let spatial = tok[1] == "spat";
+					let a = if spatial { 3 } else { 2 };
+					let sc = pu(tok[a]) as usize;
+					let tc = tok.get(a + 1).map(|x| pu(x) as usize);
+					let lid = if spatial {
+						let Some(Some(lid)) = st.lis_ids.get(pu(tok[2]) as usize).copied() else { return "skip".into() };
+						Some(lid)
+					} else {
+						None
+					};
 					let elog = probe::new_log();
 					st.all_logs.push(elog.clone());
-					let b = TrackBuilder::new().sound_capacity(sc).with_effect(ProbeEffectBuilder {
-						gain: 1.0,
-						offset: 0.0,
-						feedback: 0.0,
-						log: elog.clone(),
+					let tb = track_builder(lid, sc, tc, &elog);
+					let r = create(st.sh[0].cap, detail, out, || match tb {
+						TB::Plain(b) => mgr.add_sub_track(b).ok().map(TH::Plain),
+						TB::Spatial(l, b) => mgr.add_spatial_sub_track(l, glam::Vec3::ZERO, b).ok().map(TH::Spatial),
 					});
-					let r = create(st.sh[0].cap, detail, out, || mgr.add_sub_track(b));
 					let n = mgr.num_sub_tracks();
-					let ok = r.is_ok();
+					let ok = r.is_some();
 					check_create(&mut st.sh[0], ok, Some(n), detail, out);
 					let idx = st.sh[0].res.len().wrapping_sub(1);
-					st.subs.push(r.ok().map(|h| SubTrack {
-						handle: Some(TH::Plain(h)),
+					let caps = r.as_ref().map(|h| capacity_report(h, sc, tc, detail, out)).unwrap_or_default();
+					st.subs.push(r.map(|h| SubTrack {
+						handle: Some(h),
 						effect_log: elog,
 						sounds: vec![],
+						parent: None,
 						shadow_idx: idx,
 						snd: Shadow { cap: sc, res: vec![] },
+						kids: Shadow { cap: tc.unwrap_or(DEFAULT_TRACK_CAPACITY), res: vec![] },
+						kid_tracks: vec![],
 					}));
-					format!("{} n={}", if ok { "ok" } else { "limit" }, n)
-				}
-				"spat" => {
-					let l = pu(tok[2]) as usize;
-					let sc = pu(tok[3]) as usize;
-					let Some(Some(lid)) = st.lis_ids.get(l).copied() else { return "skip".into() };
-					let elog = probe::new_log();
-					st.all_logs.push(elog.clone());
-					let b = SpatialTrackBuilder::new().sound_capacity(sc).with_effect(ProbeEffectBuilder {
-						gain: 1.0,
-						offset: 0.0,
-						feedback: 0.0,
-						log: elog.clone(),
-					});
-					let r = create(st.sh[0].cap, detail, out, || mgr.add_spatial_sub_track(lid, glam::Vec3::ZERO, b));
-					let n = mgr.num_sub_tracks();
-					let ok = r.is_ok();
-					check_create(&mut st.sh[0], ok, Some(n), detail, out);
-					let idx = st.sh[0].res.len().wrapping_sub(1);
-					st.subs.push(r.ok().map(|h| SubTrack {
-						handle: Some(TH::Spatial(h)),
-						effect_log: elog,
-						sounds: vec![],
-						shadow_idx: idx,
-						snd: Shadow { cap: sc, res: vec![] },
-					}));
-					format!("{} n={}", if ok { "ok" } else { "limit" }, n)
+					format!("{} n={}{}", if ok { "ok" } else { "limit" }, n, caps)
 				}
 				"send" => {
 					let elog = probe::new_log();
@@ -449,6 +626,50 @@ fn op(st: &mut St, line: &str, detail: &str, out: &mut Out) -> String {
 				}
 				_ => "bad-op".into(),
 			}
+		}
+		"tadd" => {
+			// tadd <p> sub <sndcap> <subcap> | tadd <p> spat <l> <sndcap> <subcap>
+			let p = pu(tok[1]) as usize;
+			let spatial = tok[2] == "spat";
+			let a = if spatial { 4 } else { 3 };
+			let sc = pu(tok[a]) as usize;
+			let tc = pu(tok[a + 1]) as usize;
+			let lid = if spatial {
+				let Some(Some(lid)) = st.lis_ids.get(pu(tok[3]) as usize).copied() else { return "skip".into() };
+				Some(lid)
+			} else {
+				None
+			};
+			let Some(Some(parent)) = st.subs.get_mut(p) else { return "skip".into() };
+			let Some(h) = parent.handle.as_mut() else { return "skip".into() };
+			let elog = probe::new_log();
+			let cap = parent.kids.cap;
+			let tb = track_builder(lid, sc, Some(tc), &elog);
+			let r = create(cap, detail, out, || match tb {
+				TB::Plain(b) => h.add_sub_track(b).ok().map(TH::Plain),
+				TB::Spatial(l, b) => h.add_spatial_sub_track(l, b).ok().map(TH::Spatial),
+			});
+			let n = h.num_sub_tracks();
+			let ok = r.is_some();
+			check_create(&mut parent.kids, ok, Some(n), detail, out);
+			let idx = parent.kids.res.len().wrapping_sub(1);
+			let caps = r.as_ref().map(|h| capacity_report(h, sc, Some(tc), detail, out)).unwrap_or_default();
+			if ok {
+				let me = st.subs.len();
+				st.subs[p].as_mut().unwrap().kid_tracks.push(me);
+			}
+			st.all_logs.push(elog.clone());
+			st.subs.push(r.map(|h| SubTrack {
+				handle: Some(h),
+				effect_log: elog,
+				sounds: vec![],
+				parent: Some(p),
+				shadow_idx: idx,
+				snd: Shadow { cap: sc, res: vec![] },
+				kids: Shadow { cap: tc, res: vec![] },
+				kid_tracks: vec![],
+			}));
+			format!("{} n={}{}", if ok { "ok" } else { "limit" }, n, caps)
 		}
 		"play" => {
 			let Some(mgr) = st.mgr.as_mut() else { return "bad-op".into() };
@@ -513,7 +734,7 @@ fn op(st: &mut St, line: &str, detail: &str, out: &mut Out) -> String {
 				"sub" => match st.subs.get_mut(i) {
 					Some(Some(s)) if s.handle.is_some() => {
 						s.handle = None;
-						st.sh[0].res[s.shadow_idx].1 = true;
+						sub_where_mut(st, i).1 = true;
 						"ok".into()
 					}
 					_ => "skip".into(),
@@ -564,12 +785,6 @@ fn op(st: &mut St, line: &str, detail: &str, out: &mut Out) -> String {
 					st.sh[5].res[k].1 = true;
 				}
 			}
-			let sub_in_arena: Vec<bool> = st
-				.subs
-				.iter()
-				.map(|s| s.as_ref().map(|s| st.sh[0].res[s.shadow_idx].0).unwrap_or(Where::Gone))
-				.map(|w| w != Where::Gone)
-				.collect();
 			for s in st.subs.iter_mut().flatten() {
 				for (k, (log, len)) in s.sounds.iter().enumerate() {
 					let produced: usize = log.lock().unwrap().slices.iter().sum();
@@ -581,19 +796,14 @@ fn op(st: &mut St, line: &str, detail: &str, out: &mut Out) -> String {
 			cb.callback(frames, 2);
 			let tid = cb.thread_id;
 			// ---- shadow: what the property says this callback must have done ----
-			for k in 0..6 {
+			for k in 1..6 {
 				st.sh[k].callback();
 			}
-			// a sub-track's own sound storage is served only while the track is in the mixer's arena
-			for (i, s) in st.subs.iter_mut().enumerate() {
-				if let Some(s) = s {
-					let now_in = st.sh[0].res[s.shadow_idx].0 == Where::Arena;
-					let _ = sub_in_arena[i];
-					if now_in {
-						s.snd.callback();
-					}
-				}
-			}
+			// sub-tracks, at every depth: a track's own sound storage and sub-track storage are served only while the
+			// track is in its parent's arena (and the parent in its parent's …)
+			let top: Vec<usize> = (0..st.subs.len()).filter(|i| st.subs[*i].as_ref().map(|s| s.parent.is_none()).unwrap_or(false)).collect();
+			sub_level(st, &top);
+			let Some(mgr) = st.mgr.as_mut() else { return "bad-op".into() };
 			let n = [
 				mgr.num_sub_tracks(),
 				mgr.num_send_tracks(),
@@ -611,6 +821,7 @@ fn op(st: &mut St, line: &str, detail: &str, out: &mut Out) -> String {
 				}
 			}
 			let mut tcounts = vec![];
+			let mut scounts = vec![];
 			for s in st.subs.iter().flatten() {
 				if let Some(h) = &s.handle {
 					let c = h.num_sounds();
@@ -618,6 +829,14 @@ fn op(st: &mut St, line: &str, detail: &str, out: &mut Out) -> String {
 						out.oracle_fail("count_exact_after_callback", detail);
 					}
 					tcounts.push(c.to_string());
+					let k = h.num_sub_tracks();
+					if k != s.kids.count() {
+						out.oracle_fail("count_exact_after_callback", detail);
+					}
+					if c > s.snd.cap || k > s.kids.cap {
+						out.oracle_fail("count_le_capacity", detail);
+					}
+					scounts.push(k.to_string());
 				}
 			}
 			// never destroyed on the callback thread
@@ -650,13 +869,14 @@ fn op(st: &mut St, line: &str, detail: &str, out: &mut Out) -> String {
 				}
 			}
 			format!(
-				"n sub={} send={} clock={} mod={} snd={} t={} clk={} md={}",
+				"n sub={} send={} clock={} mod={} snd={} t={} s={} clk={} md={}",
 				n[0],
 				n[1],
 				n[2],
 				n[3],
 				n[5],
 				if tcounts.is_empty() { "-".to_string() } else { tcounts.join(".") },
+				if scounts.is_empty() { "-".to_string() } else { scounts.join(".") },
 				bits(clk),
 				bits(md)
 			)
